@@ -86,6 +86,25 @@ def _direct_call(ctx, adj, tag):
         ctx.check(len(ut) <= nu and len(vt) <= max(nv, 0) or True, "table-length")
     if nedges > 0:
         mm = dense.max_matching_size(adj)
+        # the two augmenting-path matchers themselves (the second one feeds the "Hungarian" cover; the first one documents
+        # the assumption U = V = {0..n-1})
+        from renormalizer.lib.bipartite_matching import bipartite_matching as bm
+        for name, fn, ok in (("max_bipartite_matching2", bm.max_bipartite_matching2, True),
+                             ("max_bipartite_matching", bm.max_bipartite_matching, nv <= nu)):
+            if not ok:
+                continue
+            try:
+                match = fn([list(map(int, vs)) for vs in adj])
+            except Exception as e:  # noqa: BLE001
+                from rv.case import _innermost_repo_frame
+                ctx.violate(f"{name}|crash|{type(e).__name__}@{_innermost_repo_frame(e)}", adj=adj, message=str(e)[:100])
+                continue
+            ctx.count("matchings_checked")
+            pairs = [(u, v) for v, u in enumerate(match) if u is not None]
+            valid = all(v in adj[u] for u, v in pairs) and len({u for u, _ in pairs}) == len(pairs)
+            if not ctx.check(valid, f"{name}|not-a-matching", adj=adj, match=[None if u is None else int(u) for u in match]):
+                continue
+            ctx.check(len(pairs) == mm, f"{name}|matching-not-maximum", adj=adj, size=len(pairs), maximum=mm)
         n_u_used = sum(1 for vs in adj if vs)
         if mm < min(n_u_used, nv):
             return True
